@@ -70,6 +70,21 @@ func (fr *Frame) call(ins *ssa.Call, c *ssa.CallCommon, reach *Term, st *State) 
 			return reach
 		}
 	}
+	// sync/atomic Load on a field or variable address: an interference point. Between this goroutine's previous atomic
+	// operation and the load any other goroutine may have changed the location, so the value read is unconstrained (and
+	// becomes the value this goroutine knows). A sequentially correct "Add, then Load" thus does not return the value of
+	// its own Add.
+	if sc := c.StaticCallee(); sc != nil && sc.Pkg != nil && sc.Pkg.Pkg.Path() == "sync/atomic" && strings.HasPrefix(sc.Name(), "Load") && len(c.Args) == 1 {
+		if av := fr.val(c.Args[0], st); av.LV != nil {
+			fr.noteLV(av.LV)
+			cur := vc.load(st, av.LV)
+			nv := vc.freshVal("atomic.load", cur.Typ)
+			vc.store(st, av.LV, nv)
+			setRes(scalar(resT, nv.T()))
+			vc.usedTrusted["sync/atomic."+sc.Name()+" (modelled as an interference point: the value read is unconstrained)"] = true
+			return reach
+		}
+	}
 	var args []Val
 	for _, a := range c.Args {
 		args = append(args, fr.reify(fr.val(a, st)))
